@@ -337,6 +337,7 @@ func c14Run(e *Env, isCache bool) {
 	}
 	plans := make([][]opSpec, nTasks)
 	nextVal := 0
+	useShared := isCache && t.Chance(1, 4)
 	for ti := range plans {
 		nOps := 1 + t.Choose(3)
 		for oi := 0; oi < nOps; oi++ {
@@ -346,8 +347,15 @@ func c14Run(e *Env, isCache bool) {
 				in.Op = []int{cLoadOrStore, cLoad, cSweep, cDelete, cRefresh}[t.Weighted(4, 3, 3, 1, 2)]
 				// validity: short (expires during the run), long, or never
 				in.Until = []int64{50, 10, 1000000, 0, 120}[t.Choose(5)] // relative ms, resolved at invoke
-				if in.Op == cLoadOrStore && t.Chance(1, 5) {
-					in.Shared, in.V, in.Until = true, 9000+in.K, 0
+				if useShared {
+					// (no refresh in these runs: it would change the validity of the one object the callers share, and
+					// with it the meaning of the operations that pass it later)
+					if in.Op == cRefresh {
+						in.Op = cLoad
+					}
+					if in.Op == cLoadOrStore && t.Chance(1, 2) {
+						in.Shared, in.V, in.Until = true, 9000+in.K, 0
+					}
 				}
 			} else {
 				in.Op = t.Choose(int(mVisit))
